@@ -948,6 +948,23 @@ def rule_O2(ctx, R):
                         else:
                             res.bad(Violation("O2", top["path"], "field-write", "field of a sorting collection is written or "
                                               "mutably borrowed after construction", f["span"]["file"], s.get("line")))
+    # mutable access to the heap cell that holds the lockable of a sorting collection (raw-pointer route)
+    for f in analysed_fns(ctx):
+        paths, err, I = ctx.paths(f)
+        if err:
+            continue
+        muts = [e for p in paths for e in p.events if e["k"] == "COLL_DATA_MUT" and e.get("adt") in SORTING]
+        if not muts:
+            continue
+        top = f
+        by_value_self = top.get("inputs") and top["inputs"][0]["k"] == "adt" and top["inputs"][0]["path"] in SORTING
+        is_drop = (top.get("trait_item") or "") == "std::ops::Drop::drop"
+        if by_value_self or is_drop:
+            res.ok("%s takes the data out (consumer/Drop)" % top["path"])
+        else:
+            res.bad(Violation("O2", top["path"], "data-mutated", "the lockable inside a sorting collection is mutated after construction "
+                              "(through its heap cell): the cached, sorted lock list no longer matches the data - new members are "
+                              "never locked but still handed out by guard()/data_mut()", muts[0].get("file"), muts[0].get("line")))
     for f in F.fns:
         if "inputs" not in f or f.get("unsafe"):
             continue
@@ -1084,4 +1101,32 @@ def rule_M5(ctx, R):
         else:
             res.ok("%s::%s" % (adt, name))
     res.need(8, "acquiring HL ops of leaf locks")
+    return res
+
+
+def rule_Q6(ctx, R):
+    res = RuleResult("Q6", "a killed lock stays killed: the kill flag of Mutex/RwLock is never cleared - the flag's clear operation is "
+                           "called only on a Poisonable's own (user-visible) poison flag")
+    F = ctx.F
+    clr = ctx.A.flag_fn.get("clear")
+    if not clr:
+        res.undecided("<poison flag clear>", "anchor", "no clear operation found on the flag type")
+        res.need(1, "clear call sites")
+        return res
+    leaves = leaf_locks(ctx)
+    for f, t in call_sites(ctx, lambda c: c["def"] == clr):
+        top = F.top_fn(f)
+        imp = F.impl_of_fn(top)
+        st = imp["self_ty"] if imp else None
+        base = st["ty"] if st and st["k"] == "ref" else st
+        owner = base["path"] if base and base["k"] == "adt" else None
+        # which object's flag? the receiver argument's base local type
+        a0 = t["args"][0] if t["args"] else None
+        if owner in leaves or owner is None or owner != "poisonable::Poisonable":
+            res.bad(Violation("Q6", top["path"], "kill-flag-cleared", "%s clears a poison/kill flag outside Poisonable: a lock whose raw "
+                              "operation panicked (state unknown, possibly still locked) accepts acquisitions again" % top["path"],
+                              f["span"]["file"], t.get("line")))
+        else:
+            res.ok("clear in " + top["path"])
+    res.need(1, "clear call sites")
     return res
